@@ -78,7 +78,7 @@ def expand_deep(v: Any) -> Any:
     return v
 
 
-def _writer_lines(messages: List[Any]) -> Any:
+def _writer_lines(messages: List[Any], burst: bool = False) -> Any:
     """the messages through a real StdioClient writer task (scripted child): the newline-terminated lines on the pipe"""
     import asyncio
 
@@ -94,7 +94,10 @@ def _writer_lines(messages: List[Any]) -> Any:
             async with StdioClient(stdio_params()) as client:
                 _r, w = client.get_streams()
                 for m in messages:
-                    await w.send(m)
+                    if burst:
+                        w.send_nowait(m)
+                    else:
+                        await w.send(m)
                 await asyncio.sleep(0.05)
 
     try:
@@ -163,6 +166,26 @@ def check(case: Dict[str, Any]) -> Outcome:
             if not strict_eq(back.get("params", {}).get("v", "$missing") if isinstance(back, dict) else "$notdict", v_):
                 out.fail("stdio-writer-line-differs-from-value", str(first_diff(back.get("params", {}).get("v") if isinstance(back, dict) else back, v_))[:300])
                 break
+    # ... and queued all at once, with enough ballast that the burst crosses 64 KiB somewhere in the middle
+    if 2 <= len(values) <= 90:
+        ballast = "b" * max(1, 70000 // len(values))
+        b_lines = _writer_lines([{"jsonrpc": "2.0", "method": "m", "params": {"v": v_, "ballast": ballast}} for v_ in values], burst=True)
+        if isinstance(b_lines, str):
+            out.fail("stdio-writer-failed-on-in-domain-values", "burst: " + b_lines)
+        elif len(b_lines) != len(values):
+            out.fail("stdio-writer-frames-differ-from-messages", f"burst of {len(values)} messages ({70000 // len(values)} bytes of ballast each): {len(b_lines)} newline-terminated lines on the pipe")
+        else:
+            import json as _json2
+
+            for v_, ln in zip(values, b_lines):
+                try:
+                    back = _json2.loads(ln.decode("utf-8"))
+                except Exception as e_:  # noqa
+                    out.fail("stdio-writer-line-not-json", f"burst: {type(e_).__name__}: {ln[:120]!r}")
+                    break
+                if not strict_eq(back.get("params", {}).get("v", "$missing") if isinstance(back, dict) else "$notdict", v_):
+                    out.fail("stdio-writer-line-differs-from-value", "burst (order or content): " + str(first_diff(back.get("params", {}).get("v") if isinstance(back, dict) else back, v_))[:300])
+                    break
     nt = 0
     for vi, v in enumerate(values):
         if is_nontrivial_json(v):
